@@ -28,6 +28,8 @@ def mentioned(F):
 
 
 def build(suite, info):
+    if suite == "batch":
+        return batch_case(None, info["seed"])
     if suite == "trans_count":
         return trans_case(None, info["chain"], info["N"], info["clauses"], info["seed"])
     if suite != "builders_fresh":
@@ -114,6 +116,53 @@ def trans_case(rng, chain_idx, N, clauses, seed):
                 cls="+".join(str(t[0][0]) for t in steps), info={"chain": list(chain_idx), "N": N, "clauses": clauses, "seed": seed})
 
 
+def batch_case(rng, seed):
+    """add_clauses_from: eager, lazily generated (the generator creates variables on the fly) and refused half way"""
+    def impl():
+        F = CNF()
+        F.add_linear([1, 2], ">=", 1)
+        return ok("{} {}".format(F.number_of_variables(), fmt_clauses(F)))
+
+    def oracle():
+        import random as _r
+        r = _r.Random(seed)
+        for cls in (CNF, OPB):
+            # refused half way: the clauses stored before the refusal must be within the declared count
+            F = cls()
+            batch = [[r.choice([1, -1]) * r.randint(1, 9) for _ in range(r.randint(1, 3))] for _ in range(r.randint(1, 4))]
+            bad = r.randint(0, len(batch))
+            batch.insert(bad, [3, 0])
+            try:
+                F.add_clauses_from(batch)
+                return {"class": cls.__name__, "batch": batch, "zero_literal_accepted": True}
+            except ValueError:
+                pass
+            if mentioned(F) > F.number_of_variables():
+                return {"class": cls.__name__, "batch": batch, "after_refusal_declared": F.number_of_variables(),
+                        "largest_mentioned": mentioned(F)}
+            v = F.new_variable()
+            if v <= mentioned(F) - (0 if v > mentioned(F) else 0) and v <= max([abs(l) for c in batch[:bad] for l in c] + [0]):
+                return {"class": cls.__name__, "batch": batch, "new_variable_after_refusal": v, "reuses_mentioned": True}
+            # lazily generated batch that creates variables while it is being consumed
+            F = cls()
+            created = []
+
+            def gen():
+                yield [5, -2]
+                created.append(F.new_variable())
+                yield [1, created[-1]]
+                created.append(F.new_variable())
+                yield [-created[-1], 7]
+            F.add_clauses_from(gen())
+            if any(v <= 5 for v in created[:1]) or (len(created) > 1 and created[1] <= created[0]):
+                return {"class": cls.__name__, "lazy_batch_new_variables": created,
+                        "why": "a variable created while the batch was consumed reuses an identifier already mentioned"}
+            if mentioned(F) > F.number_of_variables():
+                return {"class": cls.__name__, "lazy_batch": True, "declared": F.number_of_variables(), "mentioned": mentioned(F)}
+        return None
+    return Case("batch", req("linF", 0, OPCODE[">="], 1, enc_list([1, 2])), impl, oracle, cls="batch", info={"seed": seed})
+
+
 def cases(ctx):
     tier, seed = ctx["tier"], ctx["seed"]
     rng = common.sub_rng(seed, "C10b")
@@ -127,6 +176,8 @@ def cases(ctx):
         lits = rng.lits(n, maxvar=n + 4)
         out.append(build("builders_fresh", dict(nv=rng.choice([0, 0, 1, 3, 8]), lits=lits, op=rng.choice(OPS),
                                                  k=rng.randint(-1, n + 1))))
+    for _ in range(20 if tier == "quick" else 300):
+        out.append(batch_case(rng, rng.randint(0, 10 ** 6)))
     from harness.props import C17 as H17
     nt = len(H17.TRANS)
     small = [i for i, (t, _) in enumerate(H17.TRANS) if t[0] in ("xor", "or", "eq", "neq", "one", "ite", "flip", "none", "shuffle", "lift")]
